@@ -973,7 +973,28 @@ impl Family for CodecWFamily {
     }
 
     fn enumerated(&self, _thorough: bool) -> Vec<Vec<String>> {
-        prefill_enumerated() // track apileft-prefill
+        let mut cases = prefill_enumerated(); // track apileft-prefill
+        // a held-back FE across a read that FAILS (hard error, EINTR exhaustion, EOF, short read),
+        // then a piece starting with FD / FE / something else: the failed read contributes nothing,
+        // so the FE FD must still end the chunk (seed C02-5 flushed the FE on the failed read)
+        for limits in ["prod", "3 5"] {
+            for first in ["c 6162fe", "b 6162fe", "c fe", "b 61fefdfe"] {
+                for (count, att, src, script) in [("4", "2", "aabbccdd", "x3"), ("4", "2", "aabbccdd", "x0,x0"), ("4", "3", "aabbccdd", "e"),
+                                                  ("4", "3", "fdbbccdd", "x0,d1,x2"), ("0", "1", "aa", "-")] {
+                    for next in ["b fd6364", "c fd", "c fe", "b 63", "a fd63"] {
+                        cases.push(vec![
+                            format!("enc_new {}", limits),
+                            format!("feed {}", first),
+                            format!("feed_read {} {} {} {}", count, att, src, script),
+                            format!("feed {}", next),
+                            "finish".to_string(),
+                            "drain_all".to_string(),
+                        ]);
+                    }
+                }
+            }
+        }
+        cases
     }
 
     fn gen_case(&self, rng: &mut Rng, idx: u64, thorough: bool) -> Vec<String> {
